@@ -54,6 +54,7 @@ type Contract struct {
 	checkFrame bool
 	noReturnOK bool
 	readsClock bool
+	seals, opens bool // the function performs an AEAD seal / open whose ghost trace its ensures clauses describe
 	File       string
 	used       bool
 }
@@ -327,6 +328,14 @@ func parseContractFile(fset *token.FileSet, f *ast.File, pkgPath string) ([]*Con
 			cur.Trusted = true
 		case "clock":
 			cur.readsClock = true
+		case "aead":
+			if rest == "seal" {
+				cur.seals = true
+			} else if rest == "open" {
+				cur.opens = true
+			} else {
+				return nil, nil, fmt.Errorf("%s: aead seal|open", ln.pos)
+			}
 		case "noframe":
 			cur.checkFrame = false
 		case "noreturn":
@@ -864,12 +873,17 @@ func (ex *Exec) evalClauseIn(c *Clause, st, oldSt *State, bind map[string]Value)
 	if bind == nil && len(ex.frames) > 0 && ex.frames[0].bind != nil && ex.frame() == ex.frames[0] {
 		bind = ex.frames[0].bind
 	}
+	n0 := len(sub.pc)
 	ex.withClauseFrame(c, sub, oldSt, bind, func(s *State) {
 		out = ex.eval(c.Expr, s)
 	})
 	if sub.dead {
 		// the clause evaluated under impossible side conditions
 		return out
+	}
+	// representation facts about the values read while evaluating the clause (slice headers, time values, ...) hold in st too
+	for _, f := range sub.pc[n0:] {
+		st.assume(f)
 	}
 	return out
 }
@@ -1010,6 +1024,44 @@ func (ex *Exec) evalSpecFunc(name string, call *ast.CallExpr, st *State) []Value
 			unsupp("visited() outside a map range loop invariant")
 		}
 		return []Value{boolV(mkSelect(vv.scalar(), k))}
+	case "sealed":
+		_, ok := st.ghost["aead.seal.ad"]
+		return []Value{boolV(mkBool(ok))}
+	case "opened":
+		_, ok := st.ghost["aead.open.ad"]
+		return []Value{boolV(mkBool(ok))}
+	case "lastSealAD", "lastSealPT", "lastOpenAD", "lastOpenNonce", "lastOpenCT":
+		key := map[string]string{"lastSealAD": "aead.seal.ad", "lastSealPT": "aead.seal.pt", "lastOpenAD": "aead.open.ad", "lastOpenNonce": "aead.open.nonce", "lastOpenCT": "aead.open.ct"}[name]
+		g, ok := st.ghost[key]
+		if !ok {
+			// no such operation on this path: an unconstrained slice (clauses should be guarded by sealed()/opened())
+			g = freshValue("noaead", types.NewSlice(types.Typ[types.Uint8]))
+		}
+		g.T = types.NewSlice(types.Typ[types.Uint8])
+		return []Value{g}
+	case "lastSealKey", "lastOpenKey":
+		key := "aead.seal.aead"
+		if name == "lastOpenKey" {
+			key = "aead.open.aead"
+		}
+		g, ok := st.ghost[key]
+		var a *Term
+		if ok {
+			a = g.scalar()
+		} else {
+			a = freshVar("noaead", sortRef)
+		}
+		n := mkApp("aead!keylen", sortInt, a)
+		return []Value{{T: types.NewSlice(types.Typ[types.Uint8]), L: map[string]*Term{".ref": mkApp("aead!keyref", sortRef, a), ".off": mkApp("aead!keyoff", sortInt, a), ".len": n, ".cap": n}}}
+	case "iter":
+		if len(ex.rangeIdx) == 0 {
+			unsupp("iter() outside a range loop")
+		}
+		v, ok := st.env[ex.rangeIdx[len(ex.rangeIdx)-1]]
+		if !ok {
+			unsupp("iter(): index not bound")
+		}
+		return []Value{v}
 	case "lastnow":
 		return []Value{ex.lastNow(st)}
 	case "floordiv", "floormod":
@@ -1137,7 +1189,7 @@ func findIndexOffset(t *Term, bv *Term) *Term {
 		seen[t] = true
 		if t.Op == "select" {
 			ix := t.Args[1]
-			if ix.Op == "iadd" && ix.Args[1] == bv && (ix.Args[0].Op == "var" || ix.Args[0].isConst()) {
+			if ix.Op == "iadd" && ix.Args[1] == bv && !mentions(ix.Args[0], bv) && closedUnder(ix.Args[0]) {
 				found = ix.Args[0]
 				return
 			}
